@@ -21,7 +21,7 @@ def run(rep, kf, tier, seed):
     if pkg.errors:
         # a name that makes the parser reject the model/operation is reported by a diagnostic: allowed by the property
         rep.extra["rejected_by_parser"] = [f"{e.header} {(e.detail or '')[:80]}" for e in pkg.errors][:20]
-    locs = ("query", "header", "cookie", "path") if tier == "thorough" else ("query", "header", "path")
+    locs = ("query", "header", "cookie", "path")
     tasks = []
     for i, n in enumerate(names):
         def task(i=i, n=n):
